@@ -366,6 +366,28 @@ _add('C14', _O + 'Struct3Em', _S3, ['resp_entry_as_coded', 'respSum_as_coded', '
 for _p in ('C01', 'C02', 'C19'):
     PROPS[_p]['modules'].append(_O + 'Struct3GenRat') if _O + 'Struct3GenRat' not in PROPS[_p]['modules'] else None
 
+# wave 4: leaf families (histogram / uniform / discrete: densities, cdf, inverse transform, moments as integrals), visiting order
+# of message passing and the JSON form of Chow-Liu trees
+_LT = ['isoPdf_nonneg', 'isoPpf_cdf', 'isoPpf_cdf_inv', 'isoCdf_closed_form', 'isoCdf_monotone', 'inverse_transform_sandwich', 'inverse_transform_law',
+       'iso_integral_one', 'isoCdf_is_integral', 'isoMoment_is_integral', 'inverse_transform_measure', 'iso_rat_is_integral',
+       'height_proportional_sampling_is_wrong', 'mass_moment_is_wrong', 'uniform_is_one_bin', 'uniform_integral_one', 'uniform_moment', 'uniform_width_zero',
+       'uniform_inverse_transform', 'bernoulli_sum_one', 'bernoulli_is_categorical', 'categorical_sum_one', 'categorical_moment_is_expectation',
+       'index_moment_is_wrong', 'categorical_mode_is_argmax_category', 'bernoulli_mode_maximal', 'categorical_leaf_ok', 'categorical_leaf_moment_exact',
+       'equal_widths_readings_agree', 'edge_modes_as_coded']
+_add('C19', 'DeeprobModel.Props.LeafTheory', 'Deeprob.LeafTheory', ['isoMoment_is_integral', 'iso_rat_is_integral', 'uniform_moment', 'categorical_moment_is_expectation',
+     'index_moment_is_wrong', 'mass_moment_is_wrong', 'categorical_leaf_moment_exact', 'bernoulli_is_categorical'], [])
+_add('C07', 'DeeprobModel.Props.LeafTheory', 'Deeprob.LeafTheory', ['isoPpf_cdf', 'isoPpf_cdf_inv', 'inverse_transform_law', 'inverse_transform_sandwich',
+     'inverse_transform_measure', 'isoCdf_is_integral', 'height_proportional_sampling_is_wrong', 'uniform_inverse_transform'], [])
+_add('C01', 'DeeprobModel.Props.LeafTheory', 'Deeprob.LeafTheory', ['isoPdf_nonneg', 'iso_integral_one', 'uniform_integral_one', 'uniform_width_zero', 'bernoulli_sum_one',
+     'categorical_sum_one', 'categorical_leaf_ok', 'equal_widths_readings_agree', 'edge_modes_as_coded'], [])
+_add('C06', 'DeeprobModel.Props.LeafTheory', 'Deeprob.LeafTheory', ['categorical_mode_is_argmax_category', 'bernoulli_mode_maximal', 'edge_modes_as_coded'], [])
+_CO = ['wellFormedPred_iff_build', 'bfsOrder_perm', 'bfsOrder_eq_model', 'bfsOrder_parent_before_child', 'bfsOrder_levels', 'arrayPass_order_indep', 'codeValue_marg',
+       'arrayPass_max_slots', 'bad_order_drops_message']
+for _p in ('C02', 'C06', 'C12'):
+    _add(_p, 'DeeprobModel.Props.CltOrder', 'Deeprob.GraphIo', _CO if _p != 'C12' else ['bfsOrder_perm', 'bfsOrder_parent_before_child', 'bfsOrder_levels', 'arrayPass_order_indep', 'bad_order_drops_message'], [])
+_add('C13', 'DeeprobModel.Props.C13Clt', 'Deeprob.GraphIo', ['cltEncode_form', 'cltDecode_encode', 'cltDecode_rejects_non_tree', 'cltDecode_accepts_only_trees',
+     'cltLoad32_encode', 'cltDocs_stable_from_gen2', 'cltDocs_stable_from_gen1_of_f32'], [])
+
 # net-level prune / marginalize theorems (wave 2)
 PROPS['C09']['modules'] += ['DeeprobModel.Props.C09NetMore', 'DeeprobModel.Props.C09NetKahn']
 PROPS['C09']['theorems'] += ['Deeprob.pruneNet_normal_form', 'Deeprob.pruneNet_valid', 'Deeprob.pruneNet_checkSpn', 'Deeprob.pruneNet_fix',
